@@ -135,7 +135,7 @@ bool c01_acquire(int i, bool try_) {
     if (ok) g.try_true++; else g.try_false++;
     if (!ok && free_before && g.epoch[i] == ep && g.holders[i] == 0)
       child_fail("trylock-free", string(g.kinds[i] == 'm' ? "p_mutex_trylock" : "p_spinlock_trylock") + " returned FALSE on a free, uncontended lock");
-    if (ok && g.holders[i] != 0) child_fail("exclusion", "trylock returned TRUE while another thread holds the lock");
+    if (ok && g.holders[i] != 0) child_fail("exclusion", "trylock returned TRUE while the lock is held (by another thread or by the caller itself)");
   } else if (!ok) child_fail("lock-failed", "lock call returned FALSE");
   if (ok) {
     if (!free_before) g.contended++;
@@ -178,6 +178,9 @@ void *c01_thread(void *arg) {
     c01_section(r.lock, r.work);
     if (r.has_inner && r.inner_lock != r.lock) {
       if (c01_acquire(r.inner_lock, true)) { c01_section(r.inner_lock, r.inner_work); c01_release(r.inner_lock); }
+    } else if (r.has_inner) {
+      // the holder's own trylock on the lock it holds: "no other trylock returns TRUE" while the lock is held (c01_acquire reports it)
+      if (c01_acquire(r.lock, true)) c01_release(r.lock);
     }
     c01_release(r.lock);
   }
@@ -875,7 +878,7 @@ rc::Gen<Case> genC01() {
   return gen::mapcat(gen::tuple(rng(2, 5), rng(1, 4)), [](const std::tuple<int, int> &t) {
     int T = std::get<0>(t), L = std::get<1>(t);
     auto round = gen::map(gen::tuple(gen::weightedElement<char>({{6, 'l'}, {3, 't'}, {1, 'y'}}), rng(0, L), rng(1, 3), rng(0, 4), rng(0, L), rng(1, 3)), [](const std::tuple<char, int, int, int, int, int> &r) {
-      Round x; x.mode = std::get<0>(r); x.lock = std::get<1>(r); x.work = std::get<2>(r); x.has_inner = std::get<3>(r) == 0 && x.mode != 'y'; x.inner_lock = std::get<4>(r); x.inner_work = std::get<5>(r); if (x.inner_lock == x.lock) x.has_inner = false; return x; });
+      Round x; x.mode = std::get<0>(r); x.lock = std::get<1>(r); x.work = std::get<2>(r); x.has_inner = std::get<3>(r) == 0 && x.mode != 'y'; x.inner_lock = std::get<4>(r); x.inner_work = std::get<5>(r); return x; });   // inner == lock: the holder tries its own lock
     auto thread = gen::resize(6, gen::container<vector<Round>>(round));
     return gen::map(gen::tuple(gen::container<vector<vector<Round>>>((size_t)T, thread), gen::container<vector<char>>((size_t)L, gen::element('m', 's', 'm', 's', 'S')), genScheduleLong()),
                     [](const std::tuple<vector<vector<Round>>, vector<char>, vector<uint8_t>> &x) { Case c; c.prop = "C01"; c.threads = std::get<0>(x); c.objs = std::get<1>(x); c.sched = std::get<2>(x); return c; });
